@@ -43,6 +43,7 @@ pub enum LoadResult {
 pub struct ModuleLoader {
     pub(crate) base_dir: PathBuf,
     pub(crate) base_root: PathBuf,
+    pub(crate) entry_dir: PathBuf, // directory of the entry file: second place modules are looked up
     pub(crate) loaded_modules: HashMap<String, ModuleInfo>,
     pub(crate) loading_stack: Vec<String>,
     pub(crate) source: Arc<Source>,
